@@ -229,7 +229,56 @@ def constraint_rows(cfg, families=("mono", "uni", "edge", "trap", "mdom", "jmono
           for p, q, r, s in zip(L[i + 1, j + 1].ravel(), L[i + 1, j].ravel(), L[i, j + 1].ravel(), L[i, j].ravel()):
             add([(p, 1.0), (q, -0.5), (r, -0.5)])
             add([(q, 0.5), (r, 0.5), (s, -1.0)])
+  if "rdom" in families:
+    # range dominance (dominant a_, weak b_): for every dominant index i, weak index j and every rest position
+    #   (w[last, j] - w[0, j]) - (w[i, last] - w[i, 0]) >= 0      (mirrors range_dominance_viol)
+    for a_, b_ in cfg["rdom"]:
+      L = layers(a_, b_)
+      for i in range(L.shape[0]):
+        for j in range(L.shape[1]):
+          for p, q, r, s in zip(L[-1, j].ravel(), L[0, j].ravel(), L[i, -1].ravel(), L[i, 0].ravel()):
+            add([(p, 1.0), (q, -1.0), (r, -1.0), (s, 1.0)])
+  if "juni" in families:
+    rows.extend(joint_unimodality_rows(sizes, cfg["juni"]))
   return np.array(rows) if rows else np.zeros((0, n))
+
+
+ALL_FAMILIES = ("mono", "uni", "edge", "trap", "mdom", "jmono", "rdom", "juni")
+
+
+def all_viols(w, cfg):
+  """Largest violation over ALL eight homogeneous families (<= 0: every configured shape constraint holds exactly;
+  bounds are judged separately by bounds_viol)."""
+  s = cfg["sizes"]
+  w = np.asarray(w, dtype=np.float64)
+  return max(mono_viol(w, s, cfg["monos"]), unimodality_viol(w, s, cfg["uni"]),
+             edgeworth_viol(w, s, cfg["edge"]), trapezoid_viol(w, s, cfg["trap"]),
+             monotonic_dominance_viol(w, s, cfg["mdom"]), range_dominance_viol(w, s, cfg["rdom"]),
+             joint_monotonicity_viol(w, s, cfg["jmono"]),
+             max([joint_unimodality_viol(w[:, u], s, cfg["juni"]) for u in range(w.shape[1])] or [-np.inf]))
+
+
+def nearest_affine(w, G, H):
+  """Euclidean projection of w onto {x : G x >= H} (Lawson-Hanson least-distance programming via NNLS); None when
+  the set is empty (or the solver did not produce a point)."""
+  from scipy.optimize import nnls  # pylint: disable=g-import-not-at-top
+  w = np.asarray(w, dtype=np.float64)
+  G = np.asarray(G, dtype=np.float64)
+  H = np.asarray(H, dtype=np.float64)
+  if G.shape[0] == 0:
+    return np.array(w)
+  h = H - G @ w
+  E = np.vstack([G.T, h[None, :]])
+  f = np.zeros(E.shape[0])
+  f[-1] = 1.0
+  try:
+    u, _ = nnls(E, f, maxiter=50 * E.shape[1] + 1000)
+  except RuntimeError:
+    return None
+  r = E @ u - f
+  if abs(r[-1]) < 1e-12:
+    return None
+  return w - r[:-1] / r[-1]
 
 
 def nearest_feasible(w, A):
